@@ -238,7 +238,7 @@ ENV["VERIF_ALNUM"] = ALNUM
 os.environ["VERIF_ALNUM"] = ALNUM
 
 
-def build_harness(plain=False):
+def write_harness_manifest():
     h = os.path.join(ROOT, "harness")
     # the manifest is generated from a template so that the path dependencies follow VERIF_REPO
     manifest = open(os.path.join(h, "Cargo.toml.in")).read().replace("@REPO@", REPO)
@@ -250,6 +250,11 @@ def build_harness(plain=False):
     src_lock = os.path.join(REPO, "Cargo.lock")
     if not os.path.exists(lock) or open(lock).read() != open(src_lock).read():
         shutil.copy(src_lock, lock)
+    return h
+
+
+def build_harness(plain=False):
+    h = write_harness_manifest()
     cmd = ["cargo", "build", "--offline", "--profile", "plain" if plain else "release"]
     p = run(cmd, cwd=h, timeout=1800, check=False, stage="cargo")
     if p.returncode != 0:
